@@ -79,8 +79,8 @@ def cases():
         out.append(("umist", code))
     for t in [1, 2, 3, 4, 5, 11, 12, 15, 16, 17, 18, 19]:
         out.append(("leeds", t))
-    for k in ["MA", "CRP", "CRPHOT", "PHOTON"]:
-        out.append(("uclchem", k))
+    for k in ["MA", "CRP", "CRPHOT", "PHOTON", "MA+photon-product", "MA+crp-product"]:
+        out.append(("uclchem", k))     # (a two-body row may list PHOTON / CRP among its *products*: radiative association)
     for t in [100, 101, 102, 110, 111, 120, 1000, 103, 130, 999]:
         out.append(("naunet", t))
     return out
@@ -101,8 +101,9 @@ def make_reaction(fmt, code, first):
         f1 = first if code != 12 else first
         return LEEDSReaction(netgen.leeds_line(1, [f1, second] if code in (1,) else [f1], ["C"], rtype=code))
     if fmt == "uclchem":
-        marker = {"MA": "H", "CRP": "CRP", "CRPHOT": "CRPHOT", "PHOTON": "PHOTON"}[code]
-        return UCLCHEMReaction(f"{first},{marker},NAN,C,NAN,NAN,NAN,1.0e-10,0.0,0.0,0,0")
+        marker = {"MA": "H", "CRP": "CRP", "CRPHOT": "CRPHOT", "PHOTON": "PHOTON"}.get(code, "H")
+        prods = {"MA+photon-product": "C,PHOTON,NAN,NAN", "MA+crp-product": "C,H,CRP,NAN"}.get(code, "C,NAN,NAN,NAN")
+        return UCLCHEMReaction(f"{first},{marker},NAN,{prods},1.0e-10,0.0,0.0,0,0")
     return Reaction([first, second], ["C"], reaction_type=RT(code))
 
 
@@ -110,13 +111,15 @@ def model_code(fmt, code):
     if fmt == "umist":
         return {"PH": 102, "CP": 101, "CR": 120}.get(code, 100)
     if fmt == "uclchem":
-        return {"MA": 100, "CRP": 101, "CRPHOT": 120, "PHOTON": 102}[code]
+        return {"MA": 100, "CRP": 101, "CRPHOT": 120, "PHOTON": 102}.get(code, 100)
     return code
 
 
 def law_code(fmt, code):
     if fmt == "umist" and code in UMIST_TWOBODY:
         return "two-body"
+    if fmt == "uclchem" and str(code).startswith("MA"):
+        return "MA"
     return code
 
 
